@@ -1341,4 +1341,37 @@ func mergedHeadObjects(c *Ctx, r *Report, rule string) {
 			"the heads stored by the merge can hold entry objects handed in by the other log (read at "+src+") that were never validated: for a head both logs share, the other log's object replaces the log's own one, so a forged object with a genuine hash shows up in Heads() and Values() without ever passing CanAppend or Verify")
 	}
 	r.Floor(rule, "heads stores in Join", n, 1)
+	// the head scan itself only reads validated objects: what it decides depends on the predecessor lists of the
+	// objects it is given, so an unvalidated object (a forged copy of an entry the log already holds, with another
+	// Next list) must not be among them
+	objFlow := func(x ssa.Value) bool {
+		if ownIndexLookup(x) {
+			return false
+		}
+		if ex, ok := x.(*ssa.Extract); ok {
+			return entryCarrying(ex.Type()) || entryCarrying(ex.Tuple.Type())
+		}
+		return entryCarrying(x.Type())
+	}
+	nscan := 0
+	allInstrs(sf, false, func(ins ssa.Instruction) {
+		call, ok := ins.(*ssa.Call)
+		if !ok {
+			return
+		}
+		if f := calleeOf(call); f == nil || f.Name() != "FindHeads" || len(call.Call.Args) != 1 {
+			return
+		}
+		nscan++
+		src := ""
+		for x := range backSliceOpt(call.Call.Args[0], objFlow, false) {
+			if isSourceHeads(x) && entryCarrying(x.Type()) {
+				src = p.Pos(x.Pos())
+			}
+		}
+		r.Check(src == "", rule, r.Key(rule, join, "head-scan-objects", ""), call.Pos(),
+			"the head scan only reads the log's own entries and the validated items",
+			"the head scan is handed entry objects that came from the other log (read at "+src+") without validation: which heads are kept depends on their predecessor lists, so a forged copy of an entry the log already holds, naming the log's head as its predecessor, removes that head — entries vanish from Values() although nothing was merged")
+	})
+	r.Floor(rule, "head scans in Join", nscan, 1)
 }
